@@ -403,11 +403,11 @@ func (e *c10env) exec(o *c10op) string {
 		if c.alow > 0 {
 			// ttl mode compares used bytes with the lower threshold: require a clear margin
 			low := u1.TotalBytes * uint64(c.alow) / 100
-			for _, u := range []uint64{u1.UsedBytes, u2.UsedBytes} {
-				if !((u > low+(1<<24)) == (u1.UsedBytes > low+(1<<24)) && (u+(1<<24) <= low) == (u1.UsedBytes+(1<<24) <= low)) ||
-					(u <= low+(1<<24) && u+(1<<24) > low) {
-					e.incon = "disk usage too close to the lower threshold"
-				}
+			const margin = uint64(1) << 26
+			above := func(u uint64) bool { return u > low+margin }
+			below := func(u uint64) bool { return u+margin <= low }
+			if !(above(u1.UsedBytes) && above(u2.UsedBytes)) && !(below(u1.UsedBytes) && below(u2.UsedBytes)) {
+				e.incon = "disk usage too close to the lower threshold"
 			}
 		}
 		o.usage = &c10usage{int64(u1.Util), int64(u1.TotalBytes), int64(u1.UsedBytes)}
